@@ -81,6 +81,14 @@ def evaluate(g, op, a):
         return ("b", bool(g.Plane(a[0]).contains(P(a[1]))))
     if op == "join_ppp3":
         return ("c", g.join(*[P(x) for x in a]).array)
+    if op == "eq_mat":
+        A, B = np.asarray(a[0]), np.asarray(a[1])
+        sym = bool(np.array_equal(A, A.T) and np.array_equal(B, B.T))
+        vals = [bool(g.Transformation(A) == g.Transformation(B)), bool(g.Transformation(B) == g.Transformation(A)),
+                bool(np.all(g.TransformationCollection(np.stack([A, A])) == g.TransformationCollection(np.stack([B, B]))))]
+        if sym:
+            vals += [bool(g.Conic(A) == g.Conic(B)), bool(g.Conic(B) == g.Conic(A))]
+        return ("b", *vals)
     if op == "eq_poly":
         n = len(a) // 2
         mk = (lambda vs: g.Segment(np.array(vs))) if n == 2 else (lambda vs: g.Polygon(np.array(vs)))
